@@ -805,6 +805,53 @@ func runPaths(c *harness.Ctx) harness.Result {
 	return res
 }
 
+// part bigtext: text reports of 520-700 entries (more than any built-in row limit of the views):
+// with nodecount 0 every entry is shown, with nodecount N exactly N, and the legend accounts for
+// the rows that are shown.
+func runBigText(c *harness.Ctx) harness.Result {
+	r := c.Rng
+	n := 520 + r.Intn(181)
+	p := &profile.Profile{SampleType: []*profile.ValueType{{Type: "samples", Unit: "count"}}, PeriodType: &profile.ValueType{Type: "cpu", Unit: "ns"}, Period: 1}
+	root := &profile.Function{ID: 1, Name: "main", SystemName: "main", Filename: "m.go"}
+	rootLoc := &profile.Location{ID: 1, Address: 0x1000, Line: []profile.Line{{Function: root, Line: 1}}}
+	p.Function, p.Location = []*profile.Function{root}, []*profile.Location{rootLoc}
+	var sumFlat int64
+	for i := 0; i < n-1; i++ {
+		f := &profile.Function{ID: uint64(i + 2), Name: fmt.Sprintf("fn%04d", i), SystemName: fmt.Sprintf("fn%04d", i), Filename: "x.go"}
+		l := &profile.Location{ID: uint64(i + 2), Address: 0x2000 + uint64(i)*16, Line: []profile.Line{{Function: f, Line: 1}}}
+		p.Function, p.Location = append(p.Function, f), append(p.Location, l)
+		v := int64(1000 + i)
+		sumFlat += v
+		p.Sample = append(p.Sample, &profile.Sample{Value: []int64{v}, Location: []*profile.Location{l, rootLoc}})
+	}
+	res := harness.Result{NonTrivial: true, Sig: fmt.Sprint("bigtext", n), Sample: map[string]any{"entries": n}}
+	for _, nc := range []int{0, n - 10, 501, 80} {
+		want := n
+		if nc > 0 && nc < n {
+			want = nc
+		}
+		out, ui, rr := drv.Report(map[string]*profile.Profile{"p": p}, []string{"p"}, map[string]bool{"top": true, "flat": true}, nil, map[string]int{"nodecount": nc}, map[string]float64{"nodefraction": 0, "edgefraction": 0}, nil)
+		if rr.Panic != "" || rr.Err != nil {
+			return harness.Violation("-top -nodecount=%d over %d entries failed: %v %s %v", nc, n, rr.Err, rr.Panic, ui.Errs)
+		}
+		h, rows, err := parse.Top(out)
+		if err != nil {
+			return harness.Violation("-top unparseable: %v", err)
+		}
+		c.Stat("bigtext_reports", 1)
+		var sum int64
+		for _, x := range rows {
+			sum += x.Flat
+		}
+		if len(rows) != want || h.Accounting != sum {
+			res.Verdict = harness.Violated
+			res.Detail = fmt.Sprintf("-top -nodecount=%d over %d entries (none below a cutoff): %d rows shown, %d expected; the legend accounts for %d, the rows shown sum to %d\n%s", nc, n, len(rows), want, h.Accounting, sum, harness.Trunc(out, 600))
+			return res
+		}
+	}
+	return res
+}
+
 func init() {
 	harness.Register(&harness.Check{
 		ID:    "C05",
@@ -812,7 +859,7 @@ func init() {
 		Rule: "report-class profiles (as C04) x granularity x noinlines x sample_index x 4 trim points: nodecount in {0,1,2,3,5,n-1,n,n+1}, nodefraction placed just below/at/above an actual |cum|/sum(flat) ratio (or 0, .005, .3, 1, 2), edgefraction around an actual edge ratio, flat/cum sort; rendered as -top, -tree, -dot and -dot -call_tree through the real driver; part legend: -top and -tree under -mean, -base and -diff_base (where entry values can exceed the report total) with random nodecount/nodefraction: 'accounting for' must equal the sum of the flat values shown. part paths: file names given prefixes that trim_path / source_path rewrite (including a directory name repeated in a row), file-bearing granularities, -top and -tree at 3 trim points: every trimmed row is a row of pprof's own untrimmed report of the same options and exactly min(N, #{|cum|>=cutoff}) rows are shown; text reports are also run with call_tree set, which must change nothing. part interactive: 'top N', 'top N -cum' and 'top' typed into a fresh interactive session must print the table pprof -top -nodecount=N prints (10 for the bare command). " +
 			"oracle: shown entries carry their untrimmed flat/cum; text reports show exactly min(N, #{|cum|>=cutoff}) entries, none below the cutoff, no hidden eligible entry outranking a shown one, rows ordered by the sort magnitude; legends (accounting for, Dropped K nodes, top N of M) match; every edge joins shown entries; solid edges carry the untrimmed direct adjacency weight, dotted edges the adjacency over the shown entries with at least one bypassing sample; -tree completeness at the edge cutoff; call trees: <=1 parent, edge weight = child's cum, every node matches a distinct untrimmed tree node. non-trivial = at least 2 untrimmed entries; distinct = profile shape",
 		Assumptions:   []string{"node cutoff = |trunc(sum of untrimmed flat x nodefraction)|, edge cutoff likewise (documented rule)", "cases in which two untrimmed entries share a printable name are skipped (entries are identified by name in the output)", "graphical reports pick survivors heuristically: only invariance, cutoff and nodecount bound are checked for -dot"},
-		Parts:         []harness.Part{{Name: "trim", Quick: 8000, Thor: 200000, Run: runCase}, {Name: "interactive", Quick: 150, Thor: 4000, Run: runInteractive}, {Name: "legend", Quick: 1500, Thor: 60000, Run: runLegend}, {Name: "paths", Quick: 1200, Thor: 40000, Run: runPaths}},
+		Parts:         []harness.Part{{Name: "trim", Quick: 8000, Thor: 200000, Run: runCase}, {Name: "interactive", Quick: 150, Thor: 4000, Run: runInteractive}, {Name: "legend", Quick: 1500, Thor: 60000, Run: runLegend}, {Name: "paths", Quick: 1200, Thor: 40000, Run: runPaths}, {Name: "bigtext", Quick: 12, Thor: 300, Run: runBigText}},
 		MinNonTrivial: func(string) int { return 300 },
 		Finish: func(tier string, st map[string]int64) string {
 			if st["residual_edges_seen"] == 0 {
